@@ -3,7 +3,7 @@
    because of what goextract read from pkg/build/sbom.go on this run. *)
 From Coq Require Import Permutation Sorted.
 From Apko Require Import Base.Prelude Base.C01Lib Base.C11Lib Generated.C11Prov Model.Sbom Model.SbomLic Model.SbomProv
-  Spec.SbomSpec Spec.SbomLicSpec Spec.SbomProvSpec Proofs.SbomProofs Proofs.SbomLicProofs.
+  Spec.SbomSpec Spec.SbomLicSpec Spec.SbomProvSpec Proofs.SbomProofs Proofs.SbomRepairProofs Proofs.SbomNumbered Proofs.SbomLicProofs.
 Open Scope string_scope. Open Scope list_scope.
 
 (* ---- the image SBOM ------------------------------------------------------------ *)
@@ -29,20 +29,24 @@ Lemma built_image_sound perm b d : image_sbom perm b = Ok d ->
   IdsUnique d /\ ((forall l, Permutation (perm l) l) -> SingleTarget (expected_input b) -> RefsResolve d).
 Proof.
   rewrite image_sbom_is_generate. intro H. split.
-  - eapply generate_ids_unique. exact H.
-  - intros P S. eapply generate_refs_single; eassumption.
+  - eapply gen_ids_unique. exact H.
+  - intros P S. eapply gen_refs_single; eassumption.
 Qed.
 
 Lemma built_image_described perm b d : NoEmbedded (expected_input b) -> image_sbom perm b = Ok d ->
   DescribesImage (hash_string (b_digest b)) d /\
   (NoDup (ids (base_doc (expected_input b))) -> NamesLayers (b_layers b) d) /\
-  (NoDup (List.map p_id (own_elements (expected_input b))) ->
-     d_pkgs d = d_pkgs (base_doc (expected_input b)) ++ List.map (apk_package (nonce_of (expected_input b))) (List.map i_apk (b_installed b)) /\
-     MatchesInstalled (List.map i_apk (b_installed b)) (List.map (apk_package (nonce_of (expected_input b))) (List.map i_apk (b_installed b)))).
+  (NoDup (List.map (fun i => (a_name (i_apk i), a_version (i_apk i))) (b_installed b)) ->
+     exists elems, d_pkgs d = dedup_pkgs [] (d_pkgs (base_doc (expected_input b))) ++ elems /\
+       Forall2 (fun a p => ElemOf a p /\ exists sfx, p_id p = p_id (apk_package (nonce_of (expected_input b)) a) +++ sfx)
+               (List.map i_apk (b_installed b)) elems /\
+       MatchesInstalled (List.map i_apk (b_installed b)) elems).
 Proof.
   rewrite image_sbom_is_generate. intros NE H.
-  destruct (generate_plain_digests perm _ d NE H) as [D L]. split; [apply D; apply hash_string_nonempty|].
-  split; [exact L|]. intro N. exact (generate_one_per_apk perm _ d NE N H).
+  destruct (gen_plain_digests perm _ d NE H) as [D L]. split; [apply D; apply hash_string_nonempty|].
+  split; [exact L|]. intro N.
+  assert (NoDup (List.map key (g_apks (expected_input b)))) as N' by (cbn [expected_input g_apks]; rewrite map_map; exact N).
+  exact (proj2 (gen_one_per_apk perm _ d NE N' H)).
 Qed.
 
 Lemma built_image_licensing perm b lfs d l : image_sbom_full perm b lfs = Ok (d, l) ->
@@ -115,10 +119,10 @@ Definition ex_built : built :=
                       {| i_apk := {| a_name := "tzdata"; a_version := "2024a-r1"; a_sum := [1]%N |}; i_arch := "noarch" |};
                       {| i_apk := {| a_name := "cross-stub"; a_version := "1.0-r0"; a_sum := [2]%N |}; i_arch := "aarch64" |} ];
      b_version_id := "3.19"; b_vcs := ""; b_fs := [] |}.
-Lemma ex_built_ok : NoEmbedded (expected_input ex_built) /\ NoDup (List.map p_id (own_elements (expected_input ex_built))) /\
+Lemma ex_built_ok : NoEmbedded (expected_input ex_built) /\ NoDup (List.map (fun i => (a_name (i_apk i), a_version (i_apk i))) (b_installed ex_built)) /\
   exists d, image_sbom (fun l => l) ex_built = Ok d /\ List.map p_name (d_pkgs d) = ["sha256:ab"; "sha256:c1"; "sha256:c2"; "musl"; "tzdata"; "cross-stub"].
 Proof.
-  split; [intros a _; reflexivity|]. split; [apply nodup_b_iff; vm_compute; reflexivity|].
+  split; [intros a _; reflexivity|]. split; [repeat constructor; cbn; intuition discriminate|].
   eexists. split; vm_compute; reflexivity.
 Qed.
 Definition ex_built_index : built_index :=
